@@ -32,6 +32,39 @@ def event_aggregate_for(fn, site):
     return l, None
 
 
+class LiftedAppend:
+    """a call of a private store helper that forwards its `&Event` parameter to EventLog::append
+    and propagates the append's failure: seen from the caller it IS the append (the caller holds
+    the seq guard, builds the frame and advances the map on the helper's Ok edge)."""
+
+    def __init__(self, call, ev_index, helper):
+        self.fn = call.fn
+        self.bb = call.bb
+        self.line = call.line
+        self.args = [call.args[0], call.args[ev_index]]
+        self.dest = call.dest
+        self.callee = call.callee
+        self.name = call.name
+        self.t = call.t
+        self.helper = helper
+
+
+def logical_append_sites(P, sites):
+    """EventLog::append sites of the store, with forwarding helpers replaced by their call sites."""
+    out = []
+    for s_ in sites:
+        h = s_.fn
+        l = h.root_local(s_.args[1], through_calls=(r'::deref$', r'::as_ref$', r'::borrow$'))
+        if l is not None and 1 <= l <= h.argc and 'rip_kernel::Event' in h.lty(l) and ok_edge_of_try(h, s_) is not None:
+            calls = [c for f in P.fns.values() for c in f.sites() if c.callee == h.path and f.path.startswith(STORE)]
+            if calls:
+                for c in calls:
+                    out.append(LiftedAppend(c, l - 1, h))
+                continue
+        out.append(s_)
+    return out
+
+
 SEQ_PRIMS = r'hash::map::HashMap::<K, V, S, A>::get$|ContinuityStore::load_next_seq_for$'
 
 
@@ -96,7 +129,11 @@ def run(ctx):
 
     # ------------------------------------------------------------------ C01.1 / C01.2
     sites = P.callers(APPEND)
-    store_sites = [s for s in sites if s.fn.path.startswith(STORE)]
+    store_sites = logical_append_sites(P, [s for s in sites if s.fn.path.startswith(STORE)])
+    for s in store_sites:
+        if isinstance(s, LiftedAppend):
+            ctx.touch(s.helper)
+            ctx.note('C01.1: %s forwards its frame to EventLog::append and propagates the failure; its call in %s is treated as the append' % (s.helper.path, s.fn.path))
     ctx.floor('C01.1', 'EventLog::append sites in ContinuityStore', len(store_sites), 13)
     for s in store_sites:
         fn = s.fn
